@@ -277,7 +277,10 @@ def large_files():
 
 def mux_files():
     """multiplexed links with packets split over two pages (tail-only pages, foreign page between the halves or not), alone and inside a chain"""
-    return {'FX': chain('FX', [mux_split('E', 991, n=9000, q=0.8)]),
+    # FM3: a synthesised link with THREE modes (mode-number field of 2 bits, the third mode is a second long mode) after an encoder-made link:
+    # everything that sizes packets without decoding them must read the same field width as the decoder
+    return {'FM3': chain('FM3', [link('A', 995, '3'), synth_link('std_m3', 996, 128, 512, 48, ppp=3, modes3=True)]),
+            'FX': chain('FX', [mux_split('E', 991, n=9000, q=0.8)]),
             'FX2': chain('FX2', [link('A', 992, '3'), mux_split('E', 993, per_page=3, every=4, n=9000, q=0.8), link('B', 994, '3')])}
 
 
